@@ -24,8 +24,10 @@ unshare -m sh -c '
     cd "$BASE/verif" || exit 2
     if [ "$KIND" = neutral ]; then
         res=""
-        for p in C15 C16 C20; do ./run.sh $p quick >/dev/null 2>&1; res="$res $p=$?"; done
+        for p in C15 C16 C20; do ./run.sh $p quick >"$BASE/neutral-$p.log" 2>&1; res="$res $p=$?"; done
         case "$res" in *"=1"*|*"=2"*) echo "ALARM$res" ;; *) echo "QUIET$res" ;; esac
+        # what the quiet covered: skipped passes, programs set aside, concurrent-pass reach
+        grep -ah "^note:\|skipped\|set aside\|concurrent pass:\|discarded" "$BASE"/neutral-C*.log | cut -c1-300
         exit 0
     fi
     log=$(./run.sh "$PROP" quick 2>&1); code=$?
